@@ -442,7 +442,7 @@ func genOpts(r *rand.Rand, target string) *optsT {
 				o.Strip = "/"
 			}
 		case 6: // not a prefix
-			o.Strip = pick(r, []string{"/strip", "/other", "strip", "/a/b/c/d/e/f", "/A", "/Foo"})
+			o.Strip = pick(r, []string{"/strip", "/other", "strip", "/a/b/c/d/e/f", "/A", "/Foo", "/API", "/Users", "/V1", strings.ToUpper(dp)})
 		case 7: // prefix of the RAW path (still encoded): matches only if nothing was decoded
 			p, _, _ := strings.Cut(target, "?")
 			if len(p) > 1 {
@@ -492,14 +492,15 @@ func genReq(r *rand.Rand, wire bool) *reqT {
 
 // ---------- running the implementation (recorder mode) ----------
 type result struct {
-	parsed     []hdr // the request header as net/http parsed it (what ServeHTTP is given)
-	host       string
-	up         *upObs
-	calls      int
-	code       int
-	clientHdrs []hdr
-	clientBody []byte
-	panicked   bool
+	parsed      []hdr // the request header as net/http parsed it (what ServeHTTP is given)
+	host        string
+	up          *upObs
+	calls       int
+	code        int
+	clientHdrs  []hdr
+	clientBody  []byte
+	clientInfos []respT // informational responses the client saw before the final one (loopback only)
+	panicked    bool
 }
 
 func parseReq(raw []byte) (*http.Request, error) {
@@ -534,6 +535,7 @@ func serve(raw []byte, lookup func(*http.Request) *route.Target, cfg config.Prox
 // ---------- loopback mode: real listeners, fabio's own transport ----------
 type loop struct {
 	mu       sync.Mutex
+	infos    []respT // informational (1xx) responses the upstream sends before the final one
 	resp     *respT
 	got      *upObs
 	calls    int
@@ -558,7 +560,17 @@ func newLoop() *loop {
 		l.calls++
 		l.got = &upObs{Method: r.Method, Target: r.RequestURI, Host: r.Host, Hdrs: flatten(r.Header), Body: body}
 		rs := l.resp
+		infos := l.infos
 		l.mu.Unlock()
+		for _, in := range infos { // e.g. 103 Early Hints with Link headers, then the final response
+			for _, kv := range in.Hdrs {
+				w.Header().Add(kv.K, kv.V)
+			}
+			w.WriteHeader(in.Status)
+			for _, kv := range in.Hdrs {
+				w.Header().Del(kv.K)
+			}
+		}
 		for _, kv := range rs.Hdrs {
 			w.Header().Add(kv.K, kv.V)
 		}
@@ -586,9 +598,9 @@ func newLoop() *loop {
 	return l
 }
 
-func (l *loop) roundTrip(raw []byte, tgt *route.Target, rs *respT, method string) (*result, error) {
+func (l *loop) roundTrip(raw []byte, tgt *route.Target, rs *respT, method string, infos ...respT) (*result, error) {
 	l.mu.Lock()
-	l.resp, l.got, l.calls, l.tgt = rs, nil, 0, tgt
+	l.resp, l.got, l.calls, l.tgt, l.infos = rs, nil, 0, tgt, infos
 	l.mu.Unlock()
 	c, err := net.Dial("tcp", l.fabLn.Addr().String())
 	if err != nil {
@@ -597,9 +609,19 @@ func (l *loop) roundTrip(raw []byte, tgt *route.Target, rs *respT, method string
 	defer c.Close()
 	c.SetDeadline(time.Now().Add(20 * time.Second))
 	go c.Write(raw)
-	resp, err := http.ReadResponse(bufio.NewReader(c), &http.Request{Method: method})
-	if err != nil {
-		return nil, err
+	br := bufio.NewReader(c)
+	var seen []respT
+	var resp *http.Response
+	for {
+		resp, err = http.ReadResponse(br, &http.Request{Method: method})
+		if err != nil {
+			return nil, err
+		}
+		if resp.StatusCode >= 100 && resp.StatusCode < 200 && resp.StatusCode != 101 && len(seen) < 8 {
+			seen = append(seen, respT{Status: resp.StatusCode, Hdrs: flatten(resp.Header)})
+			continue
+		}
+		break
 	}
 	body, err := io.ReadAll(resp.Body)
 	if err != nil {
@@ -607,7 +629,7 @@ func (l *loop) roundTrip(raw []byte, tgt *route.Target, rs *respT, method string
 	}
 	l.mu.Lock()
 	defer l.mu.Unlock()
-	return &result{up: l.got, calls: l.calls, code: resp.StatusCode, clientHdrs: flatten(resp.Header), clientBody: body}, nil
+	return &result{up: l.got, calls: l.calls, code: resp.StatusCode, clientHdrs: flatten(resp.Header), clientBody: body, clientInfos: seen}, nil
 }
 
 func sampleOf(q *reqT, o *optsT, res *result) map[string]interface{} {
@@ -738,7 +760,7 @@ func main() {
 	// directed: every option combination on a fixed set of paths
 	dirPaths := []string{"/strip/a%2Fb", "/strip/a/b", "/strip", "/strip/", "/stripped/x", "/strip%2Fa", "/a%2Fb/strip", "/", "/strip/%41", "/strip/a^b", "/str%69p/x", "/strip/x;y=1", "/strip//x", "/strip/../y", "/a^b%2Fc", "/caf\xc3\xa9"}
 	for _, p := range dirPaths {
-		for _, strip := range []string{"", "/strip", "/strip/", "/str", "/", p, "/a/b"} {
+		for _, strip := range []string{"", "/strip", "/strip/", "/str", "/", p, "/a/b", "/Strip"} {
 			for _, pre := range []string{"", "/pre", "pre", "/p q"} {
 				for _, qs := range []string{"", "?", "?q=1"} {
 					if strip == "" && pre != "" && qs != "" {
@@ -841,6 +863,81 @@ func main() {
 		sm := sampleOf(q, &o2, res)
 		sm["wire"] = true
 		run.Add("forward-loopback", vh.App("CFwd", "true", coqOpts(&o2), coqReq(q, host, parsed), coqUp(res.up), coqResp(rs.Status, flattenList(rs.Hdrs), rs.Body), coqResp(res.code, res.clientHdrs, res.clientBody)), sm)
+	}
+
+	// ---- 5. loopback: informational (1xx) responses before the final one ----
+	// the upstream answers 0-2 times with 103 Early Hints / 102 Processing (Link headers), then with
+	// the final status; the client must see the same informational responses and the same final
+	// status, headers and body (httputil.ReverseProxy forwards 1xx through the ResponseWriter
+	// fabio wraps: every WriteHeader call must reach the client's connection)
+	finals := []int{200, 201, 204, 301, 304, 404, 500, 503}
+	for i := 0; i < run.Scale(96, 1200); i++ {
+		q := genReq(r, true)
+		q.Method = pick(r, []string{"GET", "GET", "POST", "PUT", "DELETE"})
+		o := genOpts(r, q.Target)
+		o.THost = lp.upLn.Addr().String()
+		rs := genResp(r, q.Method, true)
+		rs.Status = finals[(i/3)%len(finals)]
+		if rs.Status == 204 || rs.Status == 304 {
+			rs.Body = nil
+		}
+		if rs.Status == 304 {
+			var keep []hdr
+			for _, kv := range rs.Hdrs {
+				if kv.K != "Content-Type" {
+					keep = append(keep, kv)
+				}
+			}
+			rs.Hdrs = keep
+		}
+		var infos []respT
+		for k := 0; k < i%3; k++ {
+			in := respT{Status: []int{103, 103, 102}[r.Intn(3)]}
+			for n := 1 + r.Intn(2); n > 0; n-- {
+				in.Hdrs = append(in.Hdrs, hdr{"Link", fmt.Sprintf("</style%d.css>; rel=preload; as=style", r.Intn(100))})
+			}
+			if r.Intn(3) == 0 {
+				in.Hdrs = append(in.Hdrs, hdr{"X-Hint", genVal(r)})
+			}
+			infos = append(infos, in)
+		}
+		raw := q.wire(r)
+		pre, err := parseReq(raw)
+		if err != nil {
+			run.Exclude("net/http rejects the request before fabio sees it")
+			continue
+		}
+		parsed, host := flatten(pre.Header), pre.Host
+		res, err := lp.roundTrip(raw, mkTarget(o), rs, q.Method, infos...)
+		id := run.NextID()
+		if err != nil {
+			run.Violation(id, "loopback: no well-formed response reached the client: "+err.Error(), sampleOf(q, o, nil))
+			continue
+		}
+		if res.code == 400 && res.up == nil {
+			run.Exclude("net/http server rejects the request before fabio sees it")
+			continue
+		}
+		canon := func(s string) string { return strings.ReplaceAll(s, lp.upLn.Addr().String(), "upstream.test:80") }
+		o2 := *o
+		o2.THost = "upstream.test:80"
+		if res.up != nil {
+			res.up.Host = canon(res.up.Host)
+			for k := range res.up.Hdrs {
+				res.up.Hdrs[k].V = canon(res.up.Hdrs[k].V)
+			}
+		}
+		coqInfos := func(l []respT) string {
+			items := make([]string, len(l))
+			for k, in := range l {
+				items[k] = coqResp(in.Status, flattenList(in.Hdrs), nil)
+			}
+			return vh.List(items)
+		}
+		sm := sampleOf(q, &o2, res)
+		sm["wire"], sm["upstream_1xx"], sm["client_1xx"], sm["upstream_status"] = true, len(infos), len(res.clientInfos), rs.Status
+		run.Add("forward-loopback-1xx", vh.App("CFwd1xx", coqOpts(&o2), coqReq(q, host, parsed), coqUp(res.up), coqInfos(infos), coqResp(rs.Status, flattenList(rs.Hdrs), rs.Body),
+			coqInfos(res.clientInfos), coqResp(res.code, res.clientHdrs, res.clientBody)), sm)
 	}
 	run.Finish(preamble, run.Scale(130, 400))
 }
